@@ -166,7 +166,7 @@ def _idx(cls, name):
 def gen_unc(rs, cplx, mkind, boundary=False):
     nrb = int(rs.integers(0, 3))
     nel = int(rs.integers(1, 4))
-    nrf = int(rs.integers(0, 3))
+    nrf = int(rs.integers(0, 3)) if rs.random() < 0.75 else int(rs.integers(3, 6))
     cls = _layout(rs, nrb, nel, nrf)
     n = len(cls)
     m = rs.uniform(0.5, 4.0, n)
@@ -212,8 +212,11 @@ def gen_unc(rs, cplx, mkind, boundary=False):
         v = np.zeros(n, bool)
         v[rb] = True
         rb = v  # bool partition vector form
+    rfv = _idx(cls, "rf") or None
+    if rfv is not None and len(rfv) >= 2 and rs.random() < 0.4:
+        rfv = [rfv[i] for i in rs.permutation(len(rfv))]  # an index vector need not be ascending
     return {
-        "m": mm, "b": bb, "k": kk, "rb": rb, "rf": _idx(cls, "rf") or None, "pre_eig": False,
+        "m": mm, "b": bb, "k": kk, "rb": rb, "rf": rfv, "pre_eig": False,
         "cls": cls, "unc": True, "cplx": cplx, "mkind": mkind, "boundary": bool(boundary and nrb),
     }
 
@@ -221,7 +224,7 @@ def gen_unc(rs, cplx, mkind, boundary=False):
 def gen_coup(rs, cplx, mkind):
     nrb = int(rs.integers(0, 3))
     nel = int(rs.integers(2, 5))
-    nrf = int(rs.integers(0, 3))
+    nrf = int(rs.integers(0, 3)) if rs.random() < 0.75 else int(rs.integers(3, 6))
     cls = _layout(rs, nrb, nel, nrf)
     n = len(cls)
     rb, el, rf = _idx(cls, "rb"), _idx(cls, "el"), _idx(cls, "rf")
@@ -249,6 +252,10 @@ def gen_coup(rs, cplx, mkind):
         Bel = np.diag(bev)
     else:
         Bel = 0.3 * M[np.ix_(el, el)] + 2e-4 * Kel
+    if rs.random() < 0.3 and nel >= 2:
+        # non-symmetric (gyroscopic) damping among the elastic DOF; k and m stay symmetric
+        G = rs.standard_normal((nel, nel)) * 0.3 * float(np.sqrt(kev).mean()) * float(zeta.mean())
+        Bel = Bel + (G - G.T)
     K[np.ix_(el, el)] = Kel
     B[np.ix_(el, el)] = Bel
     if rf:
@@ -267,6 +274,8 @@ def gen_coup(rs, cplx, mkind):
     rbmode = "auto" if rs.random() < 0.5 else "explicit"
     if rbmode == "explicit" and len(rb) >= 2 and rs.random() < 0.4:
         rb = [rb[i] for i in rs.permutation(len(rb))]
+    if len(rf) >= 2 and rs.random() < 0.4:
+        rf = [rf[i] for i in rs.permutation(len(rf))]
     return {
         "m": mm, "b": B, "k": K, "rb": None if rbmode == "auto" else rb, "rf": rf or None, "pre_eig": False,
         "cls": cls, "unc": False, "cplx": cplx, "mkind": mkind, "boundary": False,
